@@ -39,6 +39,7 @@ type Params struct {
 	Icpt            int             // number of interceptors (counting + header-appending)
 	IcptPanic       int             // >0: the interceptor at this (1-based) position of the chain panics after doing its work
 	Election        bool            // partition 0 goes through a leader election (env:leader-down / env:leader-up)
+	Big             int             // >0: message number Big (1-based) is larger than Producer.MaxMessageBytes (set to 200)
 	ElectionAtStart bool            // election=2: partition 0 is leaderless from the start (the client's first metadata says so)
 	Acks            sarama.RequiredAcks
 	Sync            int // 0 async producer, 1 SyncProducer.SendMessage per message, 2 one SendMessages call
@@ -62,7 +63,7 @@ func Parse(v url.Values) (*Params, error) {
 		Idem: atoi(v, "idem", 0) == 1, RetryMax: atoi(v, "rm", 1), NMsgs: atoi(v, "nm", 2), NParts: atoi(v, "np", 1),
 		NBrokers: atoi(v, "nb", 1), FlushMsgs: atoi(v, "fm", 0), FlushMax: atoi(v, "fx", 0), FlushFreq: time.Duration(atoi(v, "ff", 0)) * time.Millisecond,
 		Backoff: time.Duration(atoi(v, "bo", 0)) * time.Millisecond, Policy: v.Get("policy"), CloseAny: atoi(v, "closeany", 0) == 1,
-		LastAfter: atoi(v, "lastafter", 0) == 1, Election: atoi(v, "election", 0) >= 1, ElectionAtStart: atoi(v, "election", 0) == 2, Icpt: atoi(v, "icpt", 0), IcptPanic: atoi(v, "icptpanic", 0),
+		LastAfter: atoi(v, "lastafter", 0) == 1, Big: atoi(v, "big", 0), Election: atoi(v, "election", 0) >= 1, ElectionAtStart: atoi(v, "election", 0) == 2, Icpt: atoi(v, "icpt", 0), IcptPanic: atoi(v, "icptpanic", 0),
 		Acks: sarama.RequiredAcks(atoi(v, "acks", 1)), Sync: atoi(v, "sync", 0),
 	}
 	if p.Policy == "" {
@@ -221,6 +222,9 @@ func run(c *gx.Ctl, p *Params) *gx.Outcome {
 	conf.Metadata.Retry.Backoff = 0
 	conf.Producer.Retry.Backoff = p.Backoff
 	conf.Producer.Retry.Max = p.RetryMax
+	if p.Big > 0 {
+		conf.Producer.MaxMessageBytes = 200
+	}
 	conf.Producer.Partitioner = sarama.NewManualPartitioner
 	conf.Producer.Flush.Messages = p.FlushMsgs
 	conf.Producer.Flush.Frequency = p.FlushFreq
@@ -351,6 +355,10 @@ func (r *rig) actors() []gx.Actor {
 				r.mu.Unlock()
 				id := msgID(i)
 				msg := &sarama.ProducerMessage{Topic: "t", Partition: p.Parts[i], Value: sarama.StringEncoder(id), Metadata: id}
+				if p.Big == i+1 {
+					// one message larger than Producer.MaxMessageBytes: the dispatcher must reject it with an error
+					msg.Value = sarama.StringEncoder(id + strings.Repeat("x", 400))
+				}
 				if k := p.KeyOf(i); k != nil {
 					msg.Key = sarama.ByteEncoder(k)
 				}
